@@ -7,6 +7,7 @@ import re
 from sa.engine.callgraph import calls_in, reachable_functions, resolve_call
 from sa.engine.consts import UNKNOWN
 from sa.engine.context import Ctx
+from sa.engine.guards import path_conditions
 from sa.engine.fieldflow import AV, FieldFlow
 from sa.engine.loader import AnalysisError, FuncInfo, anorm, dotted, norm, short, walk_own
 from sa.engine.report import Finding, RuleReport
@@ -1127,6 +1128,18 @@ def rule_bytes(ctx: Ctx) -> RuleReport:
             rep.fail(Finding("C02-BYTES", RTF, full.qual, f"\\{letter} branch drops 2 characters of a control word", f"the branch for `\\{letter}` is entered for every control word that starts with '{letter}'; when no number follows it advances by 2 (`{short(steps[0], 20)}`), so the rest of the word is emitted as text: \\uc1 gives 'c1', \\ul 'l', \\ulnone 'lnone', \\up6 'p6'", line=steps[0].lineno))
         else:
             rep.ok({"rtf_letter_branch": letter, "requires_number": needs_match})
+    # (n) RTF: the "inside a skipped destination" state is a depth, not a flag that any nested destination may re-arm: entering the
+    # state while it is already on overwrites the depth at which it ends, and the rest of the outer group ({\pict ... hex data}) becomes text
+    flag_sets = [a for a in walk_own(full.node) if isinstance(a, ast.Assign) and any(isinstance(t, ast.Name) and t.id == "skip_group" for t in a.targets) and isinstance(a.value, ast.Constant) and a.value.value is True]
+    if not flag_sets:
+        raise AnalysisError("C02-BYTES: the skip_group state of _strip_rtf_full_with_pages was not found")
+    for a in flag_sets:
+        conds, opaque, _ = path_conditions(full.node, a)
+        cs = {str(c) for c in conds} | set(opaque)
+        if "not skip_group" in cs or any(c.startswith("not skip_group") or " and not skip_group" in c for c in cs):
+            rep.ok({"rtf_skip_state": "entered only when not already skipping", "under": sorted(cs)[-2:]})
+        else:
+            rep.fail(Finding("C02-BYTES", RTF, full.qual, "skip state re-armed inside a skipped group", "skip_group / skip_depth are set for every destination group, also for one nested in a group that is already being skipped: when the nested group closes the skipping ends, and the rest of the outer group is emitted as text -- Word writes {\\pict{\\*\\picprop ...}<hex data>}, so the hexadecimal picture data lands in the body text", line=a.lineno))
     # (c) plain text: the detector judges the whole input; the text is what the detector decoded; lossy decoding only after it failed
     dd = ctx.p.func(PLAIN, "_detect_and_decode")
     rep.unit(dd.key)
